@@ -156,7 +156,8 @@ def case_routes(case):
 
     rlat, rlon = case["ref"]
     route = case["route"]
-    offs = [(120.0, -340.0), (-55.0, 410.0), (0.0, 0.0)]
+    # the fourth and fifth towers stand AT THE POSITION of the first and the third (a profile mast listed once per height)
+    offs = [(120.0, -340.0), (-55.0, 410.0), (0.0, 0.0), (120.0, -340.0), (0.0, 0.0)]
     ll = [geo.place(rlat, rlon, x, y) for x, y in offs]
     dom = dict(nx=4, ny=4, xmax=40.0, ymax=40.0, nz=2)
     good_met = dict(ustar=[0.3, 0.4], mol=[-50.0, -60.0])
